@@ -35,6 +35,9 @@ pub enum TxKind {
     /// that spends the first one's input differently and confirms nothing from the pool; the
     /// round's bundling happens `dt` after that block (handled by the script runner)
     PeerConflict(Currency),
+    /// this round's block comes from another producer (key index), assembled by the real
+    /// bundle_block on that producer's own node (with its own stake when staking is on)
+    PeerBlock(u8),
 }
 
 #[derive(Clone, Debug, PartialEq, Eq)]
@@ -123,7 +126,7 @@ impl Prod {
 
     pub fn make_tx(&self, kind: &TxKind, ts: u64) -> Option<Transaction> {
         match kind {
-            TxKind::None | TxKind::PeerConflict(_) => None,
+            TxKind::None | TxKind::PeerConflict(_) | TxKind::PeerBlock(_) => None,
             TxKind::Pay { payer, fee, route } => {
                 let from = key(*payer);
                 let to = if *payer == 1 { key(2).public } else { key(1).public };
